@@ -42,7 +42,7 @@ RULE = (
     "(history replayed from scratch on fresh objects incl. a fresh scheduler); non-trivial = the last event delivered >=1 notification "
     "to an observer or raised to the caller; distinct = (configuration, history)"
 )
-BUDGET = {"quick": 150.0, "thorough": 1500.0}
+BUDGET = {"quick": 150.0, "thorough": 1800.0}
 
 SCRIPTS = [
     [P, P, P],
@@ -69,7 +69,7 @@ def configs(tier: str, seed: int):
                 if tier == "quick" and si in (2, 4):
                     continue  # quick: plain, self-unsubscribing, and subscribing+self-unsubscribing observers
                 cfgs.append({"kind": "replay", "bs": bs, "window": w, "scripts": s, "values": vals, "err": "plain"})
-                depths.append(5 if tier == "quick" else (8 if si == 0 else 7))
+                depths.append(5 if tier == "quick" else (8, 7, 6, 7, 6)[si])
     # self-check of the state key (subjref.audit_merges): every merge re-validated by extending both histories
     for (bs, w, s) in ([(1, 10, SCRIPTS[3])] if tier == "quick" else [(1, 10, SCRIPTS[3]), (2, 10, SCRIPTS[0]), (None, 1000, SCRIPTS[1])]):
         cfgs.append({"kind": "replay", "bs": bs, "window": w, "scripts": s, "values": vals, "err": "plain", "audit": 3 if tier == "quick" else 4})
@@ -80,8 +80,8 @@ def configs(tier: str, seed: int):
 def run(ctx: core.Ctx):
     cfgs, depths = configs(ctx.tier, ctx.seed)
     sizes, windows = grid(ctx.tier)
-    real = [d for d in depths if d]
-    ctx.bounds = {"depth": {"plain observers": max(real), "scripted observers": min(real)}, "observers": 3, "buffer_size": repr(sizes),
+    real = [d for d in depths if d]  # audit instances carry depth 0 here
+    ctx.bounds = {"depth": {subjref.script_tag({"scripts": s}): sorted({d for c, d in zip(cfgs, depths) if d and c["scripts"] == s}) for s in SCRIPTS if any(d and c["scripts"] == s for c, d in zip(cfgs, depths))}, "observers": 3, "buffer_size": repr(sizes),
                   "window": repr(windows), "ticks": [5, 10], "script_configurations": sorted({subjref.script_tag(c) for c in cfgs}),
                   "configurations": len(real), "values": repr(cfgs[0]["values"])}
     ctx.assumptions = [
